@@ -28,7 +28,8 @@ var yamlSensitive = []string{"yes", "no", "on", "off", "y", "n", "~", "null", "N
 	"1e3", ".5", "-.inf", ".NaN", "2001-12-14", "2001-12-14T21:59:43Z", " lead", "trail ", "  ", "a\nb", "a\n", "a\r\nb", "tab\there",
 	"q\"uo'te", "'single'", "\"double\"", "#comment", "a #b", "k: v", "k:v", ": x", "- x", "? x", "|", ">", "|-", "%TAG", "@at", "`tick",
 	"!!str x", "&anchor", "*alias", "[a, b]", "{a: b}", "<<", "=", "a,b", "back\\slash", "é", "日本語", "😀 non-BMP", "\u2028", "\u2029",
-	" nbsp", "\ufeffbom", "very long " + string(make([]byte, 0)), "---", "...", "a: b: c", "", "0", "-1", "+1", "1.0", "0b101", "1:30"}
+	" nbsp", "\ufeffbom", "very long " + string(make([]byte, 0)), "---", "...", "a: b: c", "", "0", "-1", "+1", "1.0", "0b101", "1:30",
+	"a\n\n", "a\n\n\n", "\n\n", "x \n\n", "a\nb\n\n", "a\n \n", "a\r\n\r\n", "trail\t\n", "\n"}
 
 func sensitiveSpec(rng *rand.Rand) *specs.Spec {
 	pick := func() string { return yamlSensitive[rng.Intn(len(yamlSensitive))] }
@@ -79,6 +80,20 @@ func (codecStream) Generate(rng *rand.Rand, tier string, emit func(Case)) {
 	}
 	for i := 0; i < n; i++ {
 		emit(Case{"op": "roundtrip", "spec": specToProto(sensitiveSpec(rng))})
+	}
+	// every sensitive string as the last leaf of the document (where the end of the file is part of
+	// the scalar) and as the first one after the header
+	for _, str := range yamlSensitive {
+		last := &specs.Spec{Version: specs.CurrentVersion, Kind: "vendor.com/class",
+			Devices:        []specs.Device{{Name: "dev0", ContainerEdits: specs.ContainerEdits{Env: []string{"A=b"}}}},
+			ContainerEdits: specs.ContainerEdits{Env: []string{"L=" + str}}}
+		emit(Case{"op": "roundtrip", "spec": specToProto(last)})
+		lastDev := &specs.Spec{Version: specs.CurrentVersion, Kind: "vendor.com/class",
+			Devices: []specs.Device{{Name: "dev0", ContainerEdits: specs.ContainerEdits{Hooks: []*specs.Hook{{HookName: "poststop", Path: "/bin/x", Args: []string{"x", str}}}}}}}
+		emit(Case{"op": "roundtrip", "spec": specToProto(lastDev)})
+		first := &specs.Spec{Version: specs.CurrentVersion, Kind: "vendor.com/class", Annotations: map[string]string{"a": str},
+			Devices: []specs.Device{{Name: "dev0", ContainerEdits: specs.ContainerEdits{Env: []string{"A=b"}}}}}
+		emit(Case{"op": "roundtrip", "spec": specToProto(first)})
 	}
 	// the law sweep is driven from Execute of a single "sweep" case, which spawns one case per string
 	emit(Case{"op": "sweep", "tier": tier, "seed": rng.Int63()})
